@@ -32,6 +32,8 @@ const (
 	KFuncT                   // func(n int) int where provided, func(int) int where consumed
 	KAnon                    // struct{ V uint64 }: an unnamed struct type
 	KAlias                   // type Tn struct{...}; type An = Tn: Tn where provided, the alias An where consumed
+	KTwinA                   // ma.U: type U of package <base>/ta/model, imported as ma
+	KTwinB                   // mb.U: type U of package <base>/tb/model (same package name, same type name), imported as mb
 	numKinds
 )
 
@@ -41,13 +43,13 @@ func (k TKind) Unnamed() bool { return k >= KU64 && k <= KArr || k >= KBytes && 
 
 // Spelling of a function expression.
 const (
-	SpLit     = iota // function literal capturing x
-	SpTop            // top-level function of the package
-	SpMethod         // method value h.Fn (h captures x)
-	SpVar            // local variable holding a function literal
-	SpImport         // function of the helper package ha
-	SpGeneric        // instantiated generic function gen[Tn]
-	SpMethodVal      // method value hv.Vn: value-receiver method reached through a pointer (the receiver is copied when the method value is evaluated)
+	SpLit       = iota // function literal capturing x
+	SpTop              // top-level function of the package
+	SpMethod           // method value h.Fn (h captures x)
+	SpVar              // local variable holding a function literal
+	SpImport           // function of the helper package ha
+	SpGeneric          // instantiated generic function gen[Tn]
+	SpMethodVal        // method value hv.Vn: value-receiver method reached through a pointer (the receiver is copied when the method value is evaluated)
 	numSpell
 )
 
@@ -131,7 +133,7 @@ type Program struct {
 	Wrap     bool    `json:"wrap,omitempty"`    // argument expressions wrapped in rt.A
 	Generic  bool    `json:"generic,omitempty"` // directive inside a generic function
 	InMethod bool    `json:"in_method,omitempty"`
-	PadLines bool    `json:"pad_lines,omitempty"` // the directive starts at line 98 or 998 of its file
+	PadLines bool    `json:"pad_lines,omitempty"`  // the directive starts at line 98 or 998 of its file
 	InVarLit bool    `json:"in_var_lit,omitempty"` // directive inside a function literal that initialises a package-level variable
 	// Shadow: user variables named like identifiers of the generated code hold
 	// the Params values (and other argument values) of the directive.
